@@ -140,7 +140,7 @@ def _split_lines(data, pos, res, max_header_size):
 def _parse_status_line(line):
     """status-line = HTTP-version SP status-code SP [ reason-phrase ]"""
     if b"\r" in line:
-        return "bare_cr_status_line"
+        return "bare_cr_before_status_line" if line[:1] == b"\r" else "bare_cr_status_line"
     if len(line) < 13 or line[:5] != b"HTTP/" or line[6:7] != b"." or line[8:9] != b" ":
         return "status_line"
     if line[5] not in _DIGITS or line[7] not in _DIGITS:
@@ -191,11 +191,11 @@ def _content_length(values, res):
     combined = ",".join(values)
     pieces = combined.split(",")
     nums = []
-    for p in pieces:
+    for i, p in enumerate(pieces):
         q = p.strip(" \t")
         if not q or any(ord(c) not in _DIGITS for c in q):
             return "bad_content_length"
-        if len(pieces) > 1 and p.rstrip(" \t") != p and p is not pieces[-1]:
+        if i < len(pieces) - 1 and p.rstrip(" \t") != p:
             res.either.add("cl_ows_before_comma")
         nums.append(q)
     if any(int(x) != int(nums[0]) for x in nums):
@@ -323,26 +323,41 @@ def gunzip_strict(raw):
             # which part is missing?  the 8-byte trailer or the deflate data
             return bytes(out), _gzip_cut_class(raw), tags
         members += 1
+        if members > 1:
+            tags.add("gzip_multi_member")
         raw = d.unused_data
         if not raw:
             break
-        tags.add("gzip_multi_member")
     return bytes(out), None, tags
 
 
 def _gzip_cut_class(raw):
-    """Was the (single-member) stream cut inside its trailer or before it?"""
-    for extra in range(1, 9):
-        d = zlib.decompressobj(16 + zlib.MAX_WBITS)
-        try:
-            d.decompress(raw + b"\x00" * extra)
-        except zlib.error:
-            # padding completed the trailer (with a wrong CRC/ISIZE): the cut
-            # was inside the trailer
-            return "gzip_truncated_trailer"
-        if d.eof:
-            return "gzip_truncated_trailer"
-    return "gzip_truncated_data"
+    """Was the (single-member) stream cut inside its 8-byte trailer or before it?"""
+    n = len(raw)
+    if n < 10 or raw[:2] != b"\x1f\x8b":
+        return "gzip_truncated_data"
+    flg = raw[3]
+    pos = 10
+    if flg & 4:
+        if pos + 2 > n:
+            return "gzip_truncated_data"
+        pos += 2 + raw[pos] + (raw[pos + 1] << 8)
+    for bit in (8, 16):
+        if flg & bit:
+            z = raw.find(b"\x00", pos)
+            if z < 0:
+                return "gzip_truncated_data"
+            pos = z + 1
+    if flg & 2:
+        pos += 2
+    if pos > n:
+        return "gzip_truncated_data"
+    d = zlib.decompressobj(-zlib.MAX_WBITS)
+    try:
+        d.decompress(raw[pos:])
+    except zlib.error:
+        return "gzip_corrupt"
+    return "gzip_truncated_trailer" if d.eof else "gzip_truncated_data"
 
 
 def read_response(data, end="fin", method="GET", max_header_size=65536, max_body_size=None,
@@ -422,8 +437,6 @@ def read_response(data, end="fin", method="GET", max_header_size=65536, max_body
         res.partial = raw
         if end != "fin":
             return res.fail("incomplete", "incomplete_close_delimited_" + (end or "open"))
-        if max_body_size is not None and len(raw) > max_body_size:
-            return res.fail("reject", "body_too_large")
     res.raw_body = raw
     res.partial = raw
     res.end = end_off
@@ -440,6 +453,9 @@ def read_response(data, end="fin", method="GET", max_header_size=65536, max_body
                 return res.fail("reject", "decoded_body_too_large")
         elif res.framing != "none":
             res.either.add("gzip_empty_body")
+    if res.framing == "close" and max_body_size is not None and len(body) > max_body_size:
+        # no framing header to check up front: the limit applies to what is delivered
+        return res.fail("reject", "body_too_large")
     res.body = body
     res.kind = "ok"
     return res
